@@ -319,3 +319,74 @@ if __name__ == "__main__":
     r = random.Random(int(sys.argv[1]) if len(sys.argv) > 1 else 1)
     for c in gen(r, "quick", int(sys.argv[2]) if len(sys.argv) > 2 else 10):
         print(c)
+
+
+# ------------------------------------------------------------------------------------------
+# addrinfo engine (C13, function level)
+# ------------------------------------------------------------------------------------------
+SORTLISTS4 = ["10.0.0.0/8", "192.168.0.0/255.255.0.0", "130.155.160.0/255.255.240.0", "10.1.0.0/16", "1.2.3.4", "172.16.0.0/12",
+              "0.0.0.0/0", "127.0.0.0/8"]
+SORTLISTS6 = ["2001:db8::/32", "fe80::/10", "fd00::/8", "::1/128", "2001:db8:1::/48", "::/0"]
+
+
+def rnd_addr4(rng):
+    r = rng.random()
+    if r < 0.3:
+        return bytes([10, rng.choice([0, 1, 2]), rng.randrange(256), rng.randrange(256)])
+    if r < 0.45:
+        return bytes([192, 168, rng.randrange(256), rng.randrange(256)])
+    if r < 0.55:
+        return bytes([130, 155, rng.choice([159, 160, 170, 175, 176]), 1])
+    if r < 0.65:
+        return bytes([rng.choice([0, 9, 10, 99, 100, 199, 200, 255]) for _ in range(4)])
+    return bytes(rng.randrange(256) for _ in range(4))
+
+
+def rnd_addr6(rng):
+    r = rng.random()
+    if r < 0.3:
+        return b"\x20\x01\x0d\xb8" + bytes([0, rng.choice([0, 1, 2])]) + bytes(rng.randrange(256) for _ in range(10))
+    if r < 0.45:
+        return b"\xfe\x80" + bytes(6) + bytes(rng.randrange(256) for _ in range(8))
+    if r < 0.55:
+        return bytes(15) + bytes([rng.choice([0, 1, 2])])
+    if r < 0.65:
+        return bytes(rng.choice([0, 0x0f, 0xf0, 0xff, 0x1a, 0xa1]) for _ in range(16))
+    return bytes(rng.randrange(256) for _ in range(16))
+
+
+def gen_ai_case(rng, tier):
+    r = rng.random()
+    if r < 0.55:
+        port = rng.choice([0, 53, 80, 443, 65535, rng.randrange(65536)])
+        cno = rng.choice([0, 0, 1])
+        pre = rng.choice([0, 0, 1, 2])
+        if rng.random() < 0.08:
+            base = gen_malformed(rng, tier)
+        else:
+            base = gen_valid(rng, tier, rng.choice(["a", "a", "aaaa", "aaaa", "ptr", "mx"]))
+        return "pia:%d:%d:%d:%s" % (port, cno, pre, base)
+    if r < 0.7:
+        if rng.random() < 0.5:
+            return "ptr:2:%s|" % rnd_addr4(rng).hex()
+        if rng.random() < 0.95:
+            return "ptr:10:%s|" % rnd_addr6(rng).hex()
+        return "ptr:%d:00|" % rng.choice([0, 1, 3, 23])
+    if r < 0.9:
+        v6 = rng.random() < 0.4
+        pool = SORTLISTS6 if v6 else SORTLISTS4
+        k = rng.choice([0, 1, 2, 3, 5])
+        sl = [rng.choice(pool) for _ in range(k)]
+        if rng.random() < 0.2:
+            sl += [rng.choice(SORTLISTS4 + SORTLISTS6)]   # foreign-family entries are skipped
+            rng.shuffle(sl)
+        n = rng.choice([0, 1, 2, 3, 5, 9, 20, 60 if tier == "quick" else 200])
+        addrs = [(rnd_addr6(rng) if v6 else rnd_addr4(rng)) for _ in range(n)]
+        if addrs and rng.random() < 0.3:
+            addrs += [rng.choice(addrs) for _ in range(rng.choice([1, 3]))]   # duplicates
+        return "sort:%d:%s|%s" % (10 if v6 else 2, "_".join(sl), ";".join(a.hex() for a in addrs))
+    return "lo:%d:%d:%d|" % (rng.choice([0, 2, 10, 0, 2, 10, 5, 1]), rng.choice([0, 80, 65535]), rng.randrange(8))
+
+
+def gen_ai(rng, tier, n):
+    return [gen_ai_case(rng, tier) for _ in range(n)]
